@@ -437,6 +437,11 @@ var noRetry bool
 
 func dischargeAll(obls []*Obligation, outDir string, timeoutS int, par int) {
 	_ = os.MkdirAll(outDir, 0o755)
+	if os.Getenv("HVC_NORESCUE") != "" {
+		// runs that are expected to fail (must-fail corpus): no second and third chances
+		defer func(old bool) { noRetry = old }(noRetry)
+		noRetry = true
+	}
 	if par > 8 {
 		par = 8 // jobs in flight; the number of solver processes is bounded separately by procSem
 	}
